@@ -16,6 +16,9 @@ meaning of the result must equal the meaning of the input (same shape, free indi
   C09-pipe    the composition cancel_jacobian_products on the same family.
   C09-key     memo tables keyed by everything their value is built from (shared MEMO-KEY rule).
   C09-scope   structural binder-hygiene rule shared with C10 (substitution through binders).
+  (C09-ident also covers one summation Index object contracted against identities with different partner
+   indices in one expression; C09-key includes the persistent-traversal-cache clause: a vcache handed to
+   map_expr_dag must be selected by everything the mapped function is built from.)
 """
 
 from __future__ import annotations
